@@ -36,6 +36,9 @@ type Exec struct {
 	rawVars    map[types.Object]bool
 	rangeKey   map[string]Term
 	final      *State
+	entry0     *State
+	paramVals  []Value
+	recvVal    Value
 }
 
 func (x *Exec) unsup(pos token.Pos, f string, a ...interface{}) {
